@@ -90,6 +90,7 @@ class Engine(CoreMixin, ExprMixin, CallMixin, StmtMixin, BuiltinMixin):
         self.heap_written = set()
         self.loop_ordinal = 0
         self.lemma_instances_used = set()
+        self.def_groups = {}
         self._concat_all_seen = []
         self.uses_id = False
         self.cur_glob = fi.glob
@@ -259,6 +260,7 @@ class Engine(CoreMixin, ExprMixin, CallMixin, StmtMixin, BuiltinMixin):
         rep.ctx = (list(self.decls), list(self.globals_assumed), list(self.escape_facts))
         rep.pending = list(self.obls) if rep.out_of_subset is None else []
         rep.input_terms = dict(self.input_terms)
+        rep.def_groups = dict(self.def_groups)
         if rep.out_of_subset is None and not getattr(self, "defer", False):
             self.discharge(rep, timeout, keep_dir, pool)
         rep.wall = time.time() - t0
@@ -367,6 +369,19 @@ class Engine(CoreMixin, ExprMixin, CallMixin, StmtMixin, BuiltinMixin):
             # when everything else speaks of the list through membership atoms (lseq R) only, it is dropped (dropping an
             # assumption is sound) -- it is the expensive part for the sequence solvers
             import re as _re2
+            # the defining facts of a comprehension result that nothing else on this path mentions (the result was built
+            # but the path ends before it is used, e.g. `errors` on the oneOf multiple-match path) are dropped as a group
+            groups = getattr(rep, "def_groups", None) if rep is not None else self.def_groups
+            again = bool(groups)
+            while again:
+                again = False
+                for r_, g_ in groups.items():
+                    if not any(f in g_ for f in facts):
+                        continue
+                    rest = " ".join(f for f in facts if f not in g_) + " " + o.goal
+                    if not _re2.search(r"(?<![\w])" + _re2.escape(r_) + r"(?![\w])", rest):
+                        facts = [f for f in facts if f not in g_]
+                        again = True
             for f in list(facts):
                 m = _re2.match(r"\(= (pv_clist_\d+) \(v_list ", f)
                 if m:
